@@ -44,6 +44,17 @@ func registerModelNatives(p *Program) {
 	} {
 		m(real, model)
 	}
+	// zip container + eos models live in their own package (loaded only by the checks that need them)
+	for real, model := range map[string]string{
+		"github.com/itchio/arkive/zip.NewWriter": "ZipNewWriter", "(*github.com/itchio/arkive/zip.Writer).CreateHeader": "ZipCreateHeader",
+		"(*github.com/itchio/arkive/zip.Writer).Close": "ZipWriterClose", "github.com/itchio/arkive/zip.NewReader": "ZipNewReader",
+		"(*github.com/itchio/arkive/zip.File).Open": "ZipFileOpen", "github.com/itchio/arkive/zip.FileInfoHeader": "ZipFileInfoHeader",
+		"github.com/itchio/httpkit/eos.Open": "EosOpen",
+	} {
+		R[real] = modelPkg + "zip." + model
+	}
+	p.initAllow[modelPkg+"zip"] = true
+	p.initOverride["github.com/itchio/arkive/zip"] = p.funcByFullName(modelPkg + "zip.InitZip")
 	N := p.natives
 	N["github.com/itchio/screw.IsWrongCase"] = func(r *Run, g *Goroutine, a []Value) Value { return false }
 	N["(syscall.Errno).Error"] = func(r *Run, g *Goroutine, a []Value) Value {
